@@ -75,10 +75,10 @@ func run(c *Case) error {
 	}
 	r, err := cl.Version(8192, ver)
 	if err != nil || r.Type != ref9p.Rversion {
-		return fmt.Errorf("prologue: Tversion: %v %+v", err, r)
+		return prologueFail("Tversion", err, r)
 	}
 	if r, err = cl.Attach(0, ref9p.NOFID, "alice", "", 1001); err != nil || r.Type != ref9p.Rattach {
-		return fmt.Errorf("prologue: Tattach: %v %+v", err, r)
+		return prologueFail("Tattach", err, r)
 	}
 	nextFid := uint32(100)
 	for ri, round := range c.Rounds {
@@ -91,11 +91,11 @@ func run(c *Case) error {
 			prep := func(name string, open int) error {
 				r, err := cl.Walk(0, fid, name)
 				if err != nil || r.Type != ref9p.Rwalk || len(r.Wqid) != 1 {
-					return fmt.Errorf("prologue: walk to %q: %v %+v", name, err, r)
+					return prologueFail("walk to "+name, err, r)
 				}
 				if open >= 0 {
 					if r, err = cl.Open(fid, uint8(open)); err != nil || r.Type != ref9p.Ropen {
-						return fmt.Errorf("prologue: open: %v %+v", err, r)
+						return prologueFail("open", err, r)
 					}
 				}
 				return nil
@@ -324,6 +324,15 @@ func run(c *Case) error {
 	hx.ExtraAdd("holds_applied", int64(ap))
 	hx.ExtraAdd("holds_forced", int64(fo))
 	return nil
+}
+
+// prologueFail: a reply that did not come within the RPC timeout is a hang
+// (decided by what is blocked inside go9p), anything else is a wrong reply.
+func prologueFail(what string, err error, r *ref9p.Msg) error {
+	if err == rawc.ErrTimeout {
+		return hang("prologue: " + what + ": " + err.Error())
+	}
+	return fmt.Errorf("prologue: %s: %v %+v", what, err, r)
 }
 
 type hangErr string
@@ -651,6 +660,38 @@ func TestPropHistories(t *testing.T) {
 		}
 		if err := execute("histories", c); err != nil {
 			hx.Failf(t, "histories", c, "%v", err)
+		}
+	})
+}
+
+// TestPropDupStorm: many requests in flight whose answers are all given by two
+// completion paths at the same instant (Behav.DupRace): "an extra answer by
+// the implementation to an already answered request produces no second reply"
+// under real parallelism. Overlap of the two Respond calls is a matter of
+// nanoseconds, so the number of attempts is what counts.
+func TestPropDupStorm(t *testing.T) {
+	hx.Check(t, "dupstorm", hx.N(300, 1500), func(t *rapid.T) {
+		c := &Case{Dotu: rapid.Bool().Draw(t, "dotu"), Maxpend: rapid.SampledFrom([]int{0, 4}).Draw(t, "maxpend"), Chunks: "one"}
+		nr := rapid.IntRange(1, 3).Draw(t, "rounds")
+		for ri := 0; ri < nr; ri++ {
+			n := rapid.IntRange(16, 64).Draw(t, "n")
+			var round []ReqSpec
+			for i := 0; i < n; i++ {
+				// mostly Tattach: it needs no prologue RPC, so the time goes into the races
+				kind := "attach"
+				if rapid.IntRange(0, 3).Draw(t, "other") == 0 {
+					kind = rapid.SampledFrom(kinds).Draw(t, "kind")
+				}
+				rs := ReqSpec{Kind: kind, Tag: uint16(ri*100 + i), Arg: rapid.Uint32Range(0, 200).Draw(t, "arg")}
+				rs.Behav.DupRace = true
+				rs.Behav.Async = rapid.Bool().Draw(t, "async")
+				round = append(round, rs)
+			}
+			c.Rounds = append(c.Rounds, round)
+			c.Release = append(c.Release, nil)
+		}
+		if err := execute("dupstorm", c); err != nil {
+			hx.Failf(t, "dupstorm", c, "%v", err)
 		}
 	})
 }
